@@ -381,6 +381,130 @@ def dr_results_bounded(seed, quick):
     return ev, None
 
 
+def dr_results_labels_frf(seed, quick):
+    """bounded float: (a) form_extreme over events whose categories list their rows in different orders / with different row sets: the envelope, its case labels and
+    abscissae and the per-event columns are those of a label-keyed brute-force oracle, for every merge order; (b) frequency-domain data recovery over cases with ties and
+    NaNs: per-case and overall peaks, frequencies and case labels equal the NaN-aware brute force"""
+    sys.path.insert(0, report.REPO)
+    import itertools, warnings
+    from pyyeti import cla
+    rng = np.random.RandomState(seed + 31)
+    UF = (1, 1, 1, 1)
+    T = np.arange(0.0, 0.5, 0.01)
+    ev = 0
+
+    def make_event(name, labels, resps, kind="time", f=None):
+        drdefs = cla.DR_Def(dict(se=0, uf_reds=UF))
+        drdefs.add(name="LTM", labels=list(labels), drfunc="sol.a", units="N", srspv=None, histpv="all")
+        DR = cla.DR_Event()
+        DR.add(None, drdefs)
+        res = DR.prepare_results("verif", name)
+        for j, r in enumerate(resps):
+            if kind == "time":
+                res.time_data_recovery({UF: SimpleNamespace(a=r, v=r, d=r, t=T, h=T[1] - T[0])}, None, "%s case %d" % (name, j), DR, len(resps), j)
+            else:
+                res.frf_data_recovery({UF: SimpleNamespace(a=r, v=r, d=r, f=f)}, None, "%s case %d" % (name, j), DR, len(resps), j, dosrs=False)
+        return res
+    base = ["Row %s" % c for c in "ABCDEF"]
+    nrep = 2 if quick else 8
+    for rep in range(nrep):
+        mk = lambda n_: [rng.uniform(1, 10, size=(n_, 1)) * rng.randn(n_, T.size) for _ in range(2)]
+        perm = list(rng.permutation(6))
+        sub = base[1:4] + ["Row G"]
+        scen = {"same order": {"E1": base, "E2": base, "E3": base},
+                "permuted rows in one event": {"E1": base, "E2": [base[i] for i in perm], "E3": base},
+                "permuted rows in two events": {"E1": [base[i] for i in perm[::-1]], "E2": base, "E3": [base[i] for i in perm]},
+                "different row sets": {"E1": base, "E2": sub, "E3": base},
+                "subset in another order": {"E1": base, "E2": [base[i] for i in (4, 1, 3)], "E3": [base[i] for i in perm]}}
+        for sname, lab in scen.items():
+            events = {n_: (l_, mk(len(l_))) for n_, l_ in lab.items()}
+            for order in (["E1", "E2", "E3"], ["E2", "E3", "E1"], ["E3", "E1", "E2"]):
+                ev += 1
+                with warnings.catch_warnings():
+                    warnings.simplefilter("ignore")
+                    results = cla.DR_Results()
+                    results.merge(make_event(n_, *events[n_]) for n_ in order)
+                    results.form_extreme()
+                env = results["extreme"]["LTM"]
+                got = list(env.drminfo.labels)
+                want_labels = []
+                for n_ in order:
+                    want_labels += [l_ for l_ in events[n_][0] if l_ not in want_labels]
+                if sorted(got) != sorted(want_labels) or len(got) != len(set(got)):
+                    return ev, dict(what="form_extreme (%s): row labels of the envelope are not the union of the parts' labels" % sname, order=order, labels=got)
+                for i, lbl in enumerate(got):
+                    per_mx, per_mn, best_mx, best_mn = [], [], None, None
+                    for n_ in order:
+                        ls, rs = events[n_]
+                        if lbl not in ls:
+                            per_mx.append(np.nan); per_mn.append(np.nan)
+                            continue
+                        row = np.array([r[list(ls).index(lbl)] for r in rs])
+                        per_mx.append(row.max()); per_mn.append(row.min())
+                        if best_mx is None or row.max() > best_mx[0]:
+                            best_mx = (row.max(), n_, T[np.unravel_index(row.argmax(), row.shape)[1]])
+                        if best_mn is None or row.min() < best_mn[0]:
+                            best_mn = (row.min(), n_, T[np.unravel_index(row.argmin(), row.shape)[1]])
+                    prob = None
+                    if not (np.isclose(env.ext[i, 0], best_mx[0]) and np.isclose(env.ext[i, 1], best_mn[0])):
+                        prob = "envelope [%g, %g] but the true max/min of this row over all events is [%g, %g]" % (env.ext[i, 0], env.ext[i, 1], best_mx[0], best_mn[0])
+                    elif env.maxcase[i] != best_mx[1] or env.mincase[i] != best_mn[1]:
+                        prob = "case labels (%s, %s) but the extremes come from (%s, %s)" % (env.maxcase[i], env.mincase[i], best_mx[1], best_mn[1])
+                    elif not (np.isclose(env.ext_x[i, 0], best_mx[2]) and np.isclose(env.ext_x[i, 1], best_mn[2])):
+                        prob = "abscissae of the extremes are wrong"
+                    elif not (np.allclose(env.mx[i], per_mx, equal_nan=True) and np.allclose(env.mn[i], per_mn, equal_nan=True)):
+                        prob = "per-event maxima/minima columns are not those of the events in order"
+                    if prob:
+                        return ev, dict(what="form_extreme (%s), row %r: %s" % (sname, lbl, prob), order=order)
+                if list(env.cases) != order:
+                    return ev, dict(what="form_extreme (%s): cases %s" % (sname, list(env.cases)), order=order)
+    # (b) frequency-response recovery with NaNs and ties
+    F = np.arange(0.0, 20.0, 1.0)
+    for rep in range(3 if quick else 12):
+        ncase, nrow = 4, 5
+        resps = []
+        for j in range(ncase):
+            r = (rng.randn(nrow, F.size) + 1j * rng.randn(nrow, F.size)) * (1 + j)
+            if rep % 3 != 2:
+                r[rng.randint(nrow), rng.randint(F.size)] = np.nan          # e.g. 0/0 at one frequency
+            if rep % 3 == 1:
+                r[1, 0] = np.nan
+                r[2, 3] = r[2, 7] = 50.0 * (1 + (j == 1))                     # tie within a case; case 1 governs
+            resps.append(r)
+        for order in itertools.islice(itertools.permutations(range(ncase)), 0, 24, 7):
+            ev += 1
+            with warnings.catch_warnings():
+                warnings.simplefilter("ignore")
+                res = make_event("FRF", base[:nrow], [resps[k] for k in order], kind="frf", f=F)
+            cat = res["LTM"]
+            mags = np.array([abs(resps[k]) for k in order])                # case x row x freq
+            with warnings.catch_warnings():
+                warnings.simplefilter("ignore")
+                pk = np.nanmax(mags, axis=2)                                # case x row
+            allnan = np.isnan(mags).all(axis=2)
+            prob = None
+            if not np.allclose(cat.mx, pk.T, equal_nan=True) or not np.allclose(cat.mn, -pk.T, equal_nan=True):
+                prob = "per-case peak columns are not the NaN-aware peaks of |FRF|"
+            else:
+                for i in range(nrow):
+                    col = np.where(allnan[:, i], -np.inf, pk[:, i])
+                    jb = int(np.argmax(col))
+                    fb = F[int(np.nanargmax(mags[jb, i]))]
+                    if not (np.isclose(cat.ext[i, 0], col[jb]) and np.isclose(cat.ext[i, 1], -col[jb])):
+                        prob = "row %d: envelope %s but the largest |FRF| over all cases is %g" % (i, cat.ext[i], col[jb])
+                    elif cat.maxcase[i] != "FRF case %d" % jb or cat.mincase[i] != "FRF case %d" % jb:
+                        prob = "row %d: case label %r but the peak comes from case %d" % (i, cat.maxcase[i], jb)
+                    elif not np.isclose(cat.ext_x[i, 0], fb):
+                        prob = "row %d: frequency of the peak is %g, reported %g" % (i, fb, cat.ext_x[i, 0])
+                    if prob:
+                        break
+            if prob is None and not all(np.allclose(cat.frf[j], resps[k], equal_nan=True) for j, k in enumerate(order)):
+                prob = "stored FRFs are not the recovered responses in case order"
+            if prob:
+                return ev, dict(what="frf_data_recovery: " + prob, case_order=list(order), nan=rep % 3 != 2)
+    return ev, None
+
+
 def run(tier, seed):
     run = report.Run(PID, tier, seed)
     run.trust("z3 (path feasibility and obligations, incl. the quantified envelope invariant over an abstract multiset)",
@@ -434,11 +558,25 @@ def run(tier, seed):
     except Exception as ex_:
         import traceback as _tb
         ev4, cf4 = 0, None
-        run.notes.append("DR_Results bounded check could not run: %r %s" % (ex_, _tb.format_exc()[-300:]))
+        run.undecided.append("DR_Results bounded check could not run (checker error): %r %s" % (ex_, _tb.format_exc()[-300:]))
     run.bounded.append(dict(name="float: DR_Results two-level hierarchy (4 events, 2 groups, SRS with two Qs, both group orders): every level is the brute-force envelope of its parts, per-case "
                                  "columns in case order, parts unchanged by form_extreme, subset envelope", evaluations=ev4, failures=0 if cf4 is None else 1, label="bounded"))
+    try:
+        ev5, cf5 = dr_results_labels_frf(seed, tier == "quick")
+    except Exception as ex_:
+        import traceback as _tb
+        tb_ = _tb.extract_tb(ex_.__traceback__)
+        inrepo = [f_ for f_ in tb_ if "/pyyeti/" in f_.filename]
+        ev5, cf5 = 0, None
+        if inrepo:
+            cf5 = dict(what="DR_Results label / FRF scenario: the real code raised %r at %s:%s" % (ex_, inrepo[-1].filename.split("/pyyeti/")[-1], inrepo[-1].lineno))
+        else:
+            run.undecided.append("DR_Results label/FRF bounded check could not run (checker error): %r %s" % (ex_, _tb.format_exc()[-300:]))
+    run.bounded.append(dict(name="float: form_extreme over events with permuted rows / different row sets x merge orders (label-keyed oracle: envelope, case labels, abscissae, per-event "
+                                 "columns); frf_data_recovery over cases with NaNs and ties x case orders (NaN-aware peaks, frequencies, labels, stored FRFs)",
+                            evaluations=ev5, failures=0 if cf5 is None else 1, label="bounded"))
     if cf is None:
-        cf = cf3 or cf4
+        cf = cf3 or cf4 or cf5
     failed = [v for v in vs if v.status == "failed"]
     if not failed and cf is None and ufails:
         run.violation("bounded:apply_uf:" + json.dumps(ufails[0]["case"]), "apply_uf result differs from the documented formulas: %s" % ufails[0]["quantity"],
